@@ -121,8 +121,8 @@ def eval_one(t, name, dialect, expect, use_ymd=False):
     args = build(t, name)
     fam = family(name, t)
     target = D(t.year, t.month, t.day) if use_ymd else t
-    if name == 'parts_hms' and not use_ymd:
-        target = t.replace(microsecond=0)
+    if name in ('parts_hms', 'np_s') and not use_ymd:
+        target = t.replace(microsecond=0)          # spellings that carry the time of day to the second
     clause = 'ymd' if use_ymd else fam
     try:
         r = fn(*args, dialect=dialect)
@@ -202,6 +202,29 @@ def check_overflow(c, y, m, d):
 
 
 TOD_LOSSLESS = ['datetime', 'iso', 'np_us', 'np_ns', 'pd', 'dt2str']
+# non-zero representatives of each time-of-day field: lowest, highest and (for the microsecond) values that exercise every digit position
+TOD_NONZERO = dict(h=(1, 23, 12), m=(1, 59, 30), s=(1, 59, 30), us=(1, 999999, 50, 500000, 1000, 999000))
+
+
+def tod_patterns(rng, days, n_values):
+    """times of day by the zero / non-zero pattern of (hour, minute, second, microsecond): for every one of the 16 patterns and every
+    day of `days`, `n_values` instants whose non-zero fields run through TOD_NONZERO (the k-th instant takes the k-th representative of
+    each field, further ones are seeded).  Yields (pattern name, instant); midnight (pattern 0000) is one instant per day."""
+    fields = ('h', 'm', 's', 'us')
+    top = dict(h=24, m=60, s=60, us=10 ** 6)
+    for mask in range(16):
+        name = ''.join('1' if (mask >> (3 - i)) & 1 else '0' for i in range(4))
+        for o in days:
+            for k in range(n_values if mask else 1):
+                val = {}
+                for i, f in enumerate(fields):
+                    if not (mask >> (3 - i)) & 1:
+                        val[f] = 0
+                    elif k < len(TOD_NONZERO[f]):
+                        val[f] = TOD_NONZERO[f][k]
+                    else:
+                        val[f] = rng.randrange(1, top[f])
+                yield name, D.fromordinal(o) + datetime.timedelta(hours=val['h'], minutes=val['m'], seconds=val['s'], microseconds=val['us'])
 
 
 def run(tier, seed):
@@ -213,10 +236,12 @@ def run(tier, seed):
                        'ordinal, np.datetime64[D/s/us/ns], pd.Timestamp, ISO with and without time, yyyymmdd string, 5 month-name forms, dt2str round '
                        'trip) x both dialects, d-m-y (uk) and m-d-y (us) strings with separators - / . space, zero padded and unpadded, and for '
                        'day>12 the same strings under the other dialect (must raise ValueError); %d seeded instants with a time of day to the '
-                       'microsecond through the lossless formats and ymd(); overflow dt(y,m,d) for months [-36,48] x days [-400,400]: %s. '
+                       'microsecond through the lossless formats and ymd(); all 16 zero/non-zero patterns of (hour, minute, second, microsecond) x %d days '
+                       '(range ends, leap day, epoch, seeded) x lowest/highest/seeded non-zero field values through the lossless formats (datetime, ISO, '
+                       'np.datetime64[us/ns], pd.Timestamp, dt2str round trip), the to-the-second spellings ((y,m,d,h,m,s), np.datetime64[s]) and ymd(); overflow dt(y,m,d) for months [-36,48] x days [-400,400]: %s. '
                        'Every case is a distinct (day, spelling, dialect) triple or (y,m,d) triple.'
                        % ('every 37th day + all month ends + all 29 Feb + all days of 1900, 2000, 2024, 2100, 2299 (%d days)' % len(days) if quick
-                          else 'all 146097 days', 400 if quick else 20000,
+                          else 'all 146097 days', 400 if quick else 20000, 12 if quick else 206,
                           'complete grid for year 2000, seeded sample of 20000 for other years' if quick else 'complete grid for 6 years'),
                   exhaustive=not quick,
                   scope='calendar days 1900-01-01..2299-12-31 (%s), spellings as listed, dialects uk/us, months -36..48, days -400..400'
@@ -256,6 +281,24 @@ def run(tier, seed):
                     if bad is not None:
                         key = bad[0] if use_ymd else bad[0].replace('C04:', 'C04:time-of-day:', 1)
                         c.check(False, key, bad[1], call_of(t, name, dialect, 'value', use_ymd))
+    # ---- times of day by zero / non-zero pattern of (hour, minute, second, microsecond): all 16 patterns (a field that is zero is where a
+    #      "has no time of day" shortcut or a format that omits trailing fields can lose the others), each through every lossless spelling,
+    #      the to-the-second spellings and ymd(), on the range ends, a leap day, a day <= 12 / month <= 12 ambiguity day and seeded days
+    pat_days = [O0, O1 - 1, D(2000, 2, 29).toordinal(), D(2000, 1, 10).toordinal(), D(1969, 12, 31).toordinal(), D(1970, 1, 1).toordinal()]
+    pat_days += [rng.randrange(O0, O1) for _ in range(6 if quick else 200)]
+    for pat, t in tod_patterns(rng, pat_days, 4 if quick else 8):
+        for name in TOD_LOSSLESS + ['parts_hms', 'np_s']:
+            if name == 'np_ns' and not ns_ok(t):
+                continue
+            for dialect in DIALECTS:
+                for use_ymd in (False, True):
+                    n_eval += 1
+                    tod_seen.add((t, name, dialect, use_ymd))
+                    bad = eval_one(t, name, dialect, 'value', use_ymd=use_ymd)
+                    if bad is not None:
+                        key = bad[0] if use_ymd else bad[0].replace('C04:', 'C04:time-of-day:', 1)
+                        c.check(False, key, '[h,m,s,us zero/non-zero pattern %s] %s' % (pat, bad[1]), call_of(t, name, dialect, 'value', use_ymd))
+    c.samples.append(dict(time_of_day_patterns='16 zero/non-zero patterns of (h,m,s,us), e.g. 0001 -> %s' % (D(2000, 1, 10) + datetime.timedelta(microseconds=50)).isoformat()))
     # ---- month / day overflow
     months, dys = list(range(-36, 49)), list(range(-400, 401))
     if quick:
